@@ -181,6 +181,7 @@ def run(repo='/repo', tier='quick'):
     c04f(db, res)
     c04g(db, res)
     res.assumptions.append('values (ids inside request i and response i) are not tracked; only the counter/list discipline that pairing rests on')
+    c04g2(db, res)
     return res
 
 
@@ -306,3 +307,25 @@ def c04g(db, res):
         res.violated('C04.g', '%s:%s(transactions, tx->index)' % (n, c['callee']), '%s addresses the transaction list with tx->index: after htp_connp_tx_freed() has shifted the list that is another slot, so the finished transaction is not unlinked (the list keeps a dangling entry and never shrinks again)' % n, c['loc'])
     if not bad:
         res.holds('C04.g', 'transactions-not-addressed-by-ordinal', '%d indexed accesses to the transaction list, none through tx->index' % nuse, '')
+
+
+def c04g2(db, res):
+    """... and an ordinal is not compared with a position either: `out_next_tx_index > tx->index` is true or false by accident
+    once htp_connp_tx_freed() has shifted the list."""
+    n = 0
+    for name, f in sorted(db.fn.items()):
+        if not f.blocks:
+            continue
+        for b in sorted(f.blocks):
+            c = f.cond_of(b)
+            if not c:
+                continue
+            for e in nodes(c[0], lambda y: y.get('k') == 'bin' and y['op'] in ('<', '<=', '>', '>=', '==', '!=')):
+                sides = (S(e['l']), S(e['r']))
+                ordn = [x for x in (e['l'], e['r']) if any(m.get('field') == 'index' and m.get('rec') == 'htp_tx_t' for m in nodes(x, lambda y: y.get('k') == 'member'))]
+                posn = [x for x in (e['l'], e['r']) if 'next_tx_index' in S(x) or 'htp_list_array_size' in S(x) or 'htp_list_size' in S(x)]
+                if ordn and posn:
+                    n += 1
+                    res.violated('C04.g', '%s:compares-ordinal-with-position' % name, '%s compares a transaction\'s creation ordinal (%s) with a position in the transaction list (%s): after htp_connp_tx_freed() has shifted the list the two are unrelated, and whatever the comparison guards happens for the wrong transactions' % (name, S(ordn[0]), S(posn[0])), c[0].get('loc', f.loc))
+    if n == 0:
+        res.holds('C04.g', 'ordinal-never-compared-with-a-position', 'no condition compares htp_tx_t.index with the response cursor or the list size', '')
